@@ -471,13 +471,13 @@ class CrystalMap:
         not in the data.
         """
         unique_ids = np.unique(self.phase_id)
-        phase_list = self.phases[np.intersect1d(unique_ids, self.phases.ids)]
+        ids_in_data = np.intersect1d(unique_ids, self.phases.ids)
+        phase_list = self.phases[ids_in_data]
         if isinstance(phase_list, Phase):  # One phase in data
-            # Get phase ID so it carries over to the new `PhaseList`
-            # instance
+            # Keep the phase ID so it carries over to the new
+            # `PhaseList` instance (names need not be unique)
             phase = phase_list  # Since it's actually a single phase
-            phase_id = self.phases.id_from_name(phase.name)
-            return PhaseList(phases=phase, ids=phase_id)
+            return PhaseList(phases=phase, ids=int(ids_in_data[0]))
         else:  # Multiple phases in data
             return phase_list
 
